@@ -516,7 +516,13 @@ class StructuredTypeMarshaller(AbstractMarshaller[_ST]):
             val: The structured type to marshal.
         """
         fields = self.fields_by_var
-        return {f: fields[f](v) for f, v in serdes.iteritems(val) if f in fields}
+        # The output is keyed by the plain name of the field, whatever `str` subclass
+        #   (e.g., a `str` enum member) the input spells it with.
+        return {
+            f if f.__class__ is str else str.__str__(f): fields[f](v)
+            for f, v in serdes.iteritems(val)
+            if f in fields
+        }
 
 
 MarshalledMappingT: tp.TypeAlias = dict[
